@@ -72,7 +72,7 @@ def floors(tier):
          "timedep:callable-returns-list": 2 * k, "timedep:callable-returns-mpo": 2 * k,
          "fermionic_cases": 10 * k, "bond_growth_runs": 3 * k,
          "omitted:all": 4 * k, "omitted:none": 20 * k, "omitted:times": k, "omitted:dt": k,
-         "H_special:zero": 2 * k, "H_special:identity": k, "H_special:scaled": 3 * k, "start:scaled": 10 * k,
+         "H_special:zero": k, "H_special:identity": k, "H_special:scaled": 3 * k, "start:scaled": 10 * k,
          "N=1": 4 * k, "N=2": 8 * k, "must_reject_ok": 3 * k, "tiny_dt_runs": 2 * k, "2site_or_12site_with_empty_opts_svd": 3 * k}
     for m in ("1site", "2site", "12site"):
         for o in ("2nd", "4th"):
@@ -340,7 +340,8 @@ def run_tdvp(ctx, psi, H, sec, run, tag, witness, full, ref0, Hfun=None, judge=T
         tscale = max(abs(t_k), abs(t_prev))          # relative: times of any magnitude are judged alike
         if out.ti != t_prev:
             ctx.violation("bookkeeping:ti", f"{tag} snapshot {k}: ti = {out.ti!r}, interval starts at {t_prev!r}", w)
-        if not ctx.margin("tf", abs(out.tf - t_k), 1e-12 * tscale):
+        guard_case = delta < 1e-10 and out.steps <= 0
+        if not guard_case and not ctx.margin("tf", abs(out.tf - t_k), 1e-12 * tscale):
             ctx.violation("bookkeeping:tf", f"{tag} snapshot {k}: tf = {out.tf!r}, requested snapshot {t_k!r}", w)
         if out.time_independent != (Hfun is None):
             ctx.violation("bookkeeping:time_independent", f"{tag}: time_independent = {out.time_independent}", w)
@@ -349,6 +350,15 @@ def run_tdvp(ctx, psi, H, sec, run, tag, witness, full, ref0, Hfun=None, judge=T
             ctx.count("dt_not_dividing")
         # when dt divides the interval up to rounding, "the ratio is an integer" is not decidable in floating point: the real
         # ratio may be a hair above k, for which k + 1 (slightly shorter) steps are the documented answer as well
+        if out.steps != s_exp and not (divides and out.steps == s_exp + 1) and delta < 1e-10:
+            # specific mechanism: steps = int((t1 - t0 - 1e-12) // dt) + 1 -- the guard 1e-12 is an absolute time
+            failed.append(("time-grid:absolute-1e-12-guard",
+                           f"{tag} snapshot {k}: {out.steps} steps (dt = {out.dt!r}, tf = {out.tf!r}) for the interval {delta!r} with requested "
+                           f"dt = {dt!r}; expected {s_exp}.  The step count subtracts an absolute 1e-12 from the interval, so intervals "
+                           f"of that magnitude (large ||H||, small times) get a wrong, here non-positive, number of steps and the state "
+                           f"is handed back without having been evolved to the requested time", w))
+            failed.append(("__stalled__", "", {}))
+            break
         if out.steps != s_exp and not (divides and out.steps == s_exp + 1):
             ctx.violation("bookkeeping:steps", f"{tag} snapshot {k}: {out.steps} steps for an interval {delta!r} with dt = {dt!r}; "
                           f"the smallest number of steps not longer than dt is {s_exp}", w)
@@ -618,6 +628,14 @@ def run_case(ctx, idx):
              {k: witness[k] for k in ("space", "N", "H_form", "charge", "sector_dim", "start", "bond_dims_start", "full_manifold", "run")})
     failed = [f for f in res["failed"] if f[0] != "__stalled__"]
     if not failed:
+        return
+    if min(b - a for a, b in zip(times[:-1], times[1:])) < 1e-10:
+        # the same guard can also produce zero steps: ds = (t1 - t0) / steps then divides by zero
+        failed = [(("time-grid:absolute-1e-12-guard", f[1] + "  [steps = int((t1 - t0 - 1e-12) // dt) + 1 evaluated to 0]", f[2])
+                   if f[0].startswith("exception:ZeroDivisionError") else f) for f in failed]
+    if any(f[0].startswith("time-grid:") for f in failed):
+        for key, what, w in failed:
+            ctx.violation(key, what, w)
         return
     if psi_backup is not None:
         # mechanism classification: is the absence of canonisation the (only) cause?
